@@ -247,7 +247,8 @@ def main(tier):
                              sq.SqliteMap.from_file, sq.SqliteMap.add_node, sq.SqliteMap.add_nodes, sq.SqliteMap.add_edge, sq.SqliteMap.add_edges,
                              sq.SqliteMap.reindex_nodes, sq.SqliteMap.reindex_edges, mbase.BaseMap, inmem.InMemMap.serialize,
                              inmem.InMemMap.deserialize, inmem.InMemMap.dump, inmem.InMemMap.from_pickle)
-    budget = 100 if tier == 'quick' else 900
+    from symx.common import fit_budget
+    budget = fit_budget(len(instances(tier)), tier, 100, 100)
     res = run_instances(run_instance, [i + (budget,) if i[0] == 'sqlite' else i for i in instances(tier)])
     rep.bounds = dict(map="3 integer-labelled nodes with symbolic coordinates, up to 3 directed edges", scripts=sorted(SCRIPTS) if tier == 'thorough' else "6 of the build scripts",
                       flag="use_latlon False and True (spatial queries compared in the planar case; lat-lon with opaque trigonometry)",
